@@ -13,6 +13,9 @@ import (
 type Clock struct {
 	Nanos int64 // current simulated instant, Unix nanoseconds (UTC)
 	Reads int
+
+	timers []*pendingTimer
+	nextID int
 }
 
 var Active = &Clock{Nanos: time.Date(2024, 6, 15, 12, 0, 0, 0, time.UTC).UnixNano()}
@@ -36,4 +39,108 @@ func Sleep(d time.Duration) {
 		}
 		return nil
 	})
+}
+
+// ---- timers -----------------------------------------------------------------------
+//
+// The repository has no timers today; a change may add one (a debounce before
+// analysing, say).  time.AfterFunc and *time.Timer are rewritten to these: the
+// callback runs as a simulator task when the simulated clock reaches its
+// instant, and the clock reaches it either because the driver lets "time pass"
+// between two scheduler steps or because nothing else can run (discrete-event
+// jump to the next timer).
+
+type pendingTimer struct {
+	id     int
+	at     int64
+	fn     func()
+	active bool
+}
+
+// Timer replaces time.Timer for timers made by AfterFunc.
+type Timer struct {
+	id int // the clock that owns it is the one of the server instance that is active when it is used
+}
+
+// AfterFunc replaces time.AfterFunc.
+func AfterFunc(d time.Duration, f func()) *Timer {
+	r := simrt.Env("timer.start", "", func() *simrt.Resp {
+		c := Active
+		c.nextID++
+		at := c.Nanos
+		if d > 0 {
+			at += int64(d)
+		}
+		c.timers = append(c.timers, &pendingTimer{id: c.nextID, at: at, fn: f, active: true})
+		return &simrt.Resp{I: int64(c.nextID)}
+	})
+	return &Timer{id: int(r.I)}
+}
+
+// Stop prevents the timer from firing; it reports whether the call stopped it.
+func (t *Timer) Stop() bool {
+	r := simrt.Env("timer.stop", "", func() *simrt.Resp {
+		for _, p := range Active.timers {
+			if p.id == t.id && p.active {
+				p.active = false
+				return &simrt.Resp{B: true}
+			}
+		}
+		return &simrt.Resp{B: false}
+	})
+	return r.B
+}
+
+// Reset changes the timer to fire after d; it reports whether it was active.
+func (t *Timer) Reset(d time.Duration) bool {
+	r := simrt.Env("timer.reset", "", func() *simrt.Resp {
+		for _, p := range Active.timers {
+			if p.id == t.id {
+				was := p.active
+				p.active = true
+				p.at = Active.Nanos
+				if d > 0 {
+					p.at += int64(d)
+				}
+				return &simrt.Resp{B: was}
+			}
+		}
+		return &simrt.Resp{B: false}
+	})
+	return r.B
+}
+
+// NextTimer is the instant of the earliest active timer (scheduler side).
+func (c *Clock) NextTimer() (int64, bool) {
+	var at int64
+	ok := false
+	for _, p := range c.timers {
+		if p.active && (!ok || p.at < at) {
+			at, ok = p.at, true
+		}
+	}
+	return at, ok
+}
+
+// TakeDue removes and returns the callbacks of the active timers that are due,
+// in (instant, creation) order (scheduler side).
+func (c *Clock) TakeDue() []func() {
+	// (fired and stopped timers stay registered: Reset may arm them again)
+	var due []*pendingTimer
+	for _, p := range c.timers {
+		if p.active && p.at <= c.Nanos {
+			due = append(due, p)
+		}
+	}
+	for i := 1; i < len(due); i++ {
+		for j := i; j > 0 && (due[j].at < due[j-1].at || due[j].at == due[j-1].at && due[j].id < due[j-1].id); j-- {
+			due[j], due[j-1] = due[j-1], due[j]
+		}
+	}
+	var out []func()
+	for _, p := range due {
+		p.active = false
+		out = append(out, p.fn)
+	}
+	return out
 }
